@@ -160,6 +160,11 @@ def probes(env, fam, parser=None):
         res.append(("shortcut_is_sat_foreign", lambda: via_shortcut("is_sat", FF[2])))
         res.append(("shortcut_simplify_foreign", lambda: via_shortcut("simplify", FF[3])))
     res.append(("size_valid", lambda: env.sizeo.get_size(F[0], measure=1)))
+    tm = env.type_manager
+    res.append(("type_function", lambda: str(tm.FunctionType(types.INT, [types.INT, types.REAL]))))
+    res.append(("type_array_bv", lambda: str(tm.ArrayType(tm.BVType(8), types.INT))))
+    res.append(("type_symbol", lambda: m.Symbol("ftyped", tm.FunctionType(types.BOOL, [types.INT]))))
+    res.append(("type_instance", lambda: str(tm.get_type_instance(tm.Type("PairOK", 2), types.INT, types.REAL))))
     res.append(("build_and", lambda: m.And(F[0], m.Not(F[1]), F[2])))
     res.append(("build_plus", lambda: m.LE(m.Plus(P["i"][-1], x, m.Int(3)), m.Times(m.Int(2), y))))
     res.append(("build_ill_again", lambda: m.Plus(x, r)))
@@ -317,6 +322,25 @@ def natural_failures(env, fam, rng):
         ("invalid:logic-by-name", lambda: __import__("pysmt.logics").logics.get_logic_by_name("QF_NOPE")),
         ("invalid:factory-solver", lambda: env.factory.Solver(name="no_such_solver")),
         ("invalid:script-logic", lambda: smtlibscript_from_formula(F[1], logic="QF_NOPE")),
+        # TYPE constructors with invalid arguments (asked again by `repeats_of`), through the API and the parser
+        ("invalid-type:function-param-decl", lambda: env.type_manager.FunctionType(types.INT, [env.type_manager.Type("PairT", 2)])),
+        ("invalid-type:function-return-decl", lambda: env.type_manager.FunctionType(env.type_manager.Type("PairU", 2), [types.INT])),
+        ("invalid-type:function-param-int", lambda: env.type_manager.FunctionType(types.INT, [5])),
+        ("invalid-type:function-param-str", lambda: env.type_manager.FunctionType(types.INT, [types.INT, "Int"])),
+        ("invalid-type:array-elem-str", lambda: env.type_manager.ArrayType(types.INT, "x")),
+        ("invalid-type:array-index-decl", lambda: env.type_manager.ArrayType(env.type_manager.Type("PairV", 2), types.INT)),
+        ("invalid-type:bv-width-0", lambda: env.type_manager.BVType(0)),
+        ("invalid-type:bv-width-neg", lambda: env.type_manager.BVType(-3)),
+        ("invalid-type:bv-width-str", lambda: env.type_manager.BVType("8")),
+        ("invalid-type:instance-arity", lambda: env.type_manager.get_type_instance(env.type_manager.Type("PairW", 2), types.INT)),
+        ("invalid-type:instance-nonsort", lambda: env.type_manager.get_type_instance(env.type_manager.Type("PairX", 2), types.INT, 7)),
+        ("invalid-type:redeclare-arity", lambda: (env.type_manager.Type("SortQ", 1), env.type_manager.Type("SortQ", 2))),
+        ("invalid-type:symbol-of-decl", lambda: m.Symbol("sd", env.type_manager.Type("PairY", 2))),
+        ("invalid-type:parser-bare-parametric", lambda: parse_in(env, "(declare-sort SP 1)(declare-fun gsp (SP) Int)(assert (> (gsp gsp) 0))")),
+        ("invalid-type:parser-bare-parametric2", lambda: parse_in(env, "(declare-sort SP2 1)(declare-fun gsp2 (SP2) Int)")),
+        ("invalid-type:parser-define-sort-bare", lambda: parse_in(env, "(define-sort PS (X) (Array X X))(declare-fun hps (PS) Int)")),
+        ("invalid-type:parser-bv0", lambda: parse_in(env, "(declare-fun bz () (_ BitVec 0))(assert (= bz bz))")),
+        ("invalid-type:parser-array-arity", lambda: parse_in(env, "(declare-fun az () (Array Int))")),
         # a formula of another environment that cannot be brought into this one (name clash with another type)
         ("foreign:normalize-clash", lambda: m.normalize(foreign_clash(fam))),
         ("foreign:is_sat-clash", lambda: _sc("is_sat", foreign_clash(fam))),
@@ -624,6 +648,26 @@ COMMAND_SEQS += [
      "uses-leaked-binder"),
     ("assignment-list-bad", Y, "@assign:((y 3) (zz", ["(assert (> y 0))", "@assign:((y 4))"], "plain"),
     ("assignment-list-bad-let", Y, "@assign:((y (let ((t 1)) (+ t zz))))", ["(assert (> t y))"], "uses-leaked-binder"),
+    # a binder that shadows an existing name is CLOSED inside the failing command, the failure comes later
+    ("closed-let-then-fail", "(declare-fun c () Int)(declare-fun a () Int)(declare-fun bb () Bool)",
+     "(assert (and (let ((a (+ c 1))) (> a 0)) (> zz 0)))", ["(assert (> a 0))", "(assert (and bb (= a c)))"],
+     "uses-declared-name"),
+    ("closed-quantifier-then-fail", "(declare-fun c () Int)(declare-fun a () Int)(declare-fun bb () Bool)",
+     "(assert (and (forall ((a Int)) (> a c)) (exists ((bb Int)) (> bb 0)) zz))",
+     ["(assert (> a 0))", "(assert bb)"], "uses-declared-name"),
+    ("closed-let-true-then-fail", "(declare-fun bb () Bool)",
+     "(assert (and (let ((true bb) (false bb)) (and true false)) zz))", ["(assert (and bb true))", "(assert (or false bb))"],
+     "uses-declared-name"),
+    ("closed-nested-lets-then-fail", "(declare-fun c () Int)(declare-fun a () Int)",
+     "(assert (> (+ (let ((a 1)) (let ((a (+ a 1))) a)) (let ((c 5)) c)) zz))",
+     ["(assert (> a c))", "(assert (let ((a 2)) (> a c)))"], "uses-declared-name"),
+    ("closed-let-in-define-fun-then-fail", "(declare-fun c () Int)(declare-fun a () Int)",
+     "(define-fun g ((k Int)) Bool (and (let ((a 1) (c k)) (> a c)) zz))", ["(assert (> a c))", "(assert (> k 0))"],
+     "uses-declared-name"),
+    ("closed-let-in-get-value-then-fail", "(declare-fun c () Int)(declare-fun a () Int)",
+     "(get-value ((let ((a 1)) a) zz))", ["(assert (> a c))", "(get-value (a))"], "uses-declared-name"),
+    ("closed-let-then-garbage", "(declare-fun c () Int)(declare-fun a () Int)",
+     "(assert (let ((a 1)) (> a c)) extra)", ["(assert (> a c))"], "uses-declared-name"),
     # truncated / unterminated assignment lists (the answer of a solver that died): the environment's symbols, which
     # get_assignment_list binds while it reads, must be unbound again
     ("assignment-list-truncated", Y, "@assign:((y 1) (envx ",
